@@ -66,7 +66,7 @@ META = dict(
     "both routes; non-trivial = the history contains >= 1 dropref before the op and >= 1 object is pending / dirty / "
     "marked deleted in route B",
     assumptions=["single Session, single thread, CPython reference counting, gc.disable() outside enumerated gc ops"],
-    bounds=dict(quick="depth <= 5 beyond the two initial loads, expire_on_commit True", thorough="depth <= 6, expire_on_commit True and False"),
+    bounds=dict(quick="depth <= 5 beyond the two initial loads, expire_on_commit True", thorough="depth <= 6 with expire_on_commit True, depth <= 5 with expire_on_commit False"),
 )
 
 CFG = dict(
@@ -292,8 +292,9 @@ def run_shard(shard, tier, rec):
         for eoc in EOCS[tier]:
             cfg = make_cfg(eoc)
             ms0 = Light()
+            depth = DEPTH[tier] - (0 if eoc else 1)
             d = W.explore_levels(
-                rec, ID, [((), ms0, ("root", eoc))], enabled, lambda r, cfg=cfg: make_step(cfg, r), DEPTH[tier], jobs, warm=[(cfg, WARM)]
+                rec, ID, [((), ms0, ("root", eoc))], enabled, lambda r, cfg=cfg: make_step(cfg, r), depth, jobs, warm=[(cfg, WARM)]
             )
             rec.count("depth completed eoc=%s" % eoc, d)
     finally:
